@@ -52,6 +52,12 @@ class Loader:
         self.si = si or ''
 
     def select(self, names):
+        """the strategy objects NAMED (exact shortName, loader order) - driver side, independent of the code under test"""
+        want = set(names)
+        return [s for s in self.dmx.demultiplexingStrategies if s.shortName in want]
+
+    def select_by_string_list(self, names):
+        """what the code under test selects for the same list of names (demux.py -use a,b -> getSelectedStrategiesFromStringList)"""
         with contextlib.redirect_stdout(io.StringIO()):
             return self.dmx.getSelectedStrategiesFromStringList(list(names), verbose=False)
 
@@ -324,19 +330,29 @@ def read_sinks(d, prefix, mates, with_content, percell=False):
 
 
 def parse_log(path, names):
-    """lexical projection of demultiplexing.log: 'processed N read pairs' and '<strategy>\\t<count>' lines"""
-    processed, ylds, logged = -1, [0] * len(names), False
+    """lexical projection of demultiplexing.log: 'processed N read pairs' lines and the '<strategy>\\t<count>' rows that follow a
+    'Strategy\\tReads' header; rows of strategies that were not named are summed separately"""
+    processed, ylds, logged, foreign = -1, [0] * len(names), False, 0
     if not os.path.exists(path):
-        return logged, processed, ylds
+        return logged, processed, ylds, foreign
+    in_table = False
     with open(path) as f:
         for line in f:
             m = re.match(r'processed (\d+) read pairs', line)
             if m:           # one line per lane (call of demultiplex): the library total is their sum
                 processed, logged = (processed if logged else 0) + int(m.group(1)), True
             parts = line.rstrip('\n').split('\t')
-            if len(parts) == 2 and parts[0] in names and parts[1].isdigit():
-                ylds[names.index(parts[0])] += int(parts[1])
-    return logged, processed, ylds
+            if parts == ['Strategy', 'Reads']:
+                in_table = True
+                continue
+            if in_table and len(parts) == 2 and parts[1].isdigit():
+                if parts[0] in names:
+                    ylds[names.index(parts[0])] += int(parts[1])
+                else:
+                    foreign += int(parts[1])
+            else:
+                in_table = False
+    return logged, processed, ylds, foreign
 
 
 def oracle(strategies, pairs, lib):
@@ -458,7 +474,7 @@ def api_pass(loader, strategies, pairs, cfg, maxpairs, d, target_dir, tag):
     return raised, total, ylds
 
 
-def run_api(loader, strategies, pairs, cfg, workdir):
+def run_api(loader, strategies, names, pairs, cfg, workdir):
     """the run under test (after its history, if any) through the loader of this process; sinks re-read afterwards"""
     lib = cfg['lib']
     d = tempfile.mkdtemp(prefix='run_', dir=workdir)
@@ -470,10 +486,10 @@ def run_api(loader, strategies, pairs, cfg, workdir):
     if cfg.get('stale_dir') and not os.path.exists(target_dir):
         os.makedirs(target_dir)           # output directory exists already (demux.py 433)
     raised, processed, ylds = api_pass(loader, strategies, pairs, cfg, cfg['maxpairs'], d, target_dir, 'main')
-    names = [s.shortName for s in strategies]
     obs = observe(target_dir, cfg, names)
     obs.update(raised=raised, processed=int(processed), yields=[int(ylds.get(n, 0)) for n in names],
-               yields_foreign=int(sum(v for k, v in dict(ylds).items() if k not in names)), prior_raised=prior_raised)
+               yields_foreign=int(sum(v for k, v in dict(ylds).items() if k not in names)) + obs['logForeign'],
+               prior_raised=prior_raised)
     shutil.rmtree(d, True)
     return obs
 
@@ -481,8 +497,8 @@ def run_api(loader, strategies, pairs, cfg, workdir):
 def observe(target_dir, cfg, names):
     g = (cfg.get('cli') or {}).get('g')
     pre = '' if g is None else '%d_TEMP_' % g          # demux.py -g <group id>: chunk prefix of all output files
-    logged, lp, ly = parse_log(os.path.join(target_dir, pre + 'demultiplexing.log'), names)
-    return {'logged': logged, 'logProcessed': lp, 'logYields': ly,
+    logged, lp, ly, lf = parse_log(os.path.join(target_dir, pre + 'demultiplexing.log'), names)
+    return {'logged': logged, 'logProcessed': lp, 'logYields': ly, 'logForeign': lf,
             'tgt': read_sinks(target_dir, os.path.join(target_dir, pre + 'demultiplexed'), cfg['mates'], False, cfg['percell']),
             'rej': read_sinks(target_dir, os.path.join(target_dir, pre + 'rejects'), cfg['mates'], True) if cfg['hasRej'] else []}
 
@@ -591,9 +607,10 @@ def run_cli(names, pairs, cfg, workdir):
     raised = cli_pass(names, pairs, cfg, cfg['maxpairs'], d, out, 'main')
     target_dir = os.path.join(out, lib)
     obs = observe(target_dir, cfg, names) if os.path.isdir(target_dir) else {'logged': False, 'logProcessed': -1,
-                                                                                'logYields': [0] * len(names), 'tgt': [], 'rej': []}
+                                                                                'logYields': [0] * len(names), 'logForeign': 0,
+                                                                                'tgt': [], 'rej': []}
     # the script reports its counters only through the log
-    obs.update(raised=raised, processed=obs['logProcessed'], yields=list(obs['logYields']), yields_foreign=0,
+    obs.update(raised=raised, processed=obs['logProcessed'], yields=list(obs['logYields']), yields_foreign=obs['logForeign'],
                prior_raised=prior_raised)
     shutil.rmtree(d, True)
     return obs
@@ -630,13 +647,22 @@ class Recorder:
     def group(self, loader, names, pairs, cfgs, workdir, entry='api', extra=None):
         """one library + strategy set, executed under several sink configurations"""
         self.grp += 1
-        strategies = loader.select(names)
-        snames = [s.shortName for s in strategies]          # the order the loader really uses
+        strategies = loader.select(names)                   # the strategies NAMED: K, the oracle and the counters refer to these
+        snames = [s.shortName for s in strategies]
+        select_raised = ''
+        try:                                                # what the code under test makes of the same list of names
+            selected = loader.select_by_string_list(snames)
+        except Exception as ex:
+            selected, select_raised = None, 'select:' + type(ex).__name__
         runs = []
         acc = oracle(strategies, pairs, cfgs[0]['lib'])
         for cfg in cfgs:
             self.tid += 1
-            obs = run_api(loader, strategies, pairs, cfg, workdir) if entry == 'api' else run_cli(snames, pairs, cfg, workdir)
+            if entry == 'api' and selected is None:
+                obs = {'logged': False, 'logProcessed': -1, 'logYields': [0] * len(snames), 'logForeign': 0, 'tgt': [], 'rej': [],
+                       'raised': select_raised, 'processed': -1, 'yields': [0] * len(snames), 'yields_foreign': 0, 'prior_raised': ''}
+            else:
+                obs = run_api(loader, selected, snames, pairs, cfg, workdir) if entry == 'api' else run_cli(snames, pairs, cfg, workdir)
             self.emit(run_event(self.tid, self.grp, entry, snames, pairs, acc, cfg, obs, dict(extra or {}, hd=loader.hd, si=loader.si)))
             n = len(pairs) if not cfg['maxpairs'] else min(len(pairs), cfg['maxpairs'])
             runs.append({'n': n, 'cfg': [cfg['hasRej'], cfg['percell'], cfg['maxpairs']],
@@ -914,11 +940,13 @@ def main():
 
         # (6c) option and argument variants of the command line that change which code handles the same data
         loader_si = Loader(hd=0, si='GTGAAA,TTAGGC')
-        variants = ['se_auto', 'none_selected', 'dup_args', 'filelist', 'g0', 'g3_prior', 'mxa2', 'only', 'hd1', 'si']
+        variants = ['se_auto', 'none_selected', 'dup_args', 'filelist', 'g0', 'g3_prior', 'mxa2', 'only', 'hd1', 'si', 'superstring']
         for j, var in enumerate(variants if quick else variants * 3):
             ld = {'hd1': loader1, 'si': loader_si}.get(var, loader)
             name = rng.choice(['CS2C8U6', 'NLAIII384C8U3', 'MSPJIC8U3', 'DamID2'])
-            mates = 1 if var == 'se_auto' or (j >= len(variants) and j % 4 == 3) else 2
+            if var == 'superstring':    # -use <a name that contains another registered name>: only the named strategy may run
+                name = rng.choice(['CS2C8U6NH', 'CS2C8U6S', 'NLAIII384C8U3SE', 'SCARC8R2R4', 'DamID2_8bp_noCA', 'scCHIC384C8U3l'])
+            mates = 1 if var == 'se_auto' or name.endswith('SE') or (j >= len(variants) and j % 4 == 3) else 2
             names = [name] if var != 'mxa2' else ['CS2C8U6', 'NLAIII384C8U3']
             strategies = ld.select(names)
             n = rng.randint(10, 30)
